@@ -459,3 +459,26 @@ impl<T> std::ops::DerefMut for VWriteGuard<'_, T> {
         self.r
     }
 }
+
+// ---- stand-in for Arc (MemStorage): shared, never freed ------------------------------------
+pub struct VArc<T> {
+    p: *const T,
+}
+unsafe impl<T: Send + Sync> Send for VArc<T> {}
+unsafe impl<T: Send + Sync> Sync for VArc<T> {}
+impl<T> Clone for VArc<T> {
+    fn clone(&self) -> Self {
+        VArc { p: self.p }
+    }
+}
+impl<T: Default> Default for VArc<T> {
+    fn default() -> Self {
+        VArc { p: Box::into_raw(Box::new(T::default())) }
+    }
+}
+impl<T> std::ops::Deref for VArc<T> {
+    type Target = T;
+    fn deref(&self) -> &T {
+        unsafe { &*self.p }
+    }
+}
